@@ -21,6 +21,11 @@ const (
 	OpCompact  = "compact" // VerifCompact(Level, Mode)
 	OpCompact1 = "compactonce"
 	OpL0L0     = "l0tol0"
+	// OpHotLimit sets Options.WriteHotKeyLimit (the DB keeps the caller's *Options): the
+	// N-th and later writes of one (cf,key) are refused with ErrHotKeyWriteThrottle until the
+	// limit is raised again.  It stands for the production throttle window opening and
+	// closing and lets a request fail between two of its engine writes.
+	OpHotLimit = "hotlimit"
 )
 
 // Mutation kinds (same numbering as pb.Mutation_Op).
@@ -64,6 +69,7 @@ type Step struct {
 	// maintenance
 	Level int `json:"level,omitempty"`
 	Mode  int `json:"mode,omitempty"`
+	N     int `json:"n,omitempty"` // hotlimit: new WriteHotKeyLimit
 	// Dup marks a verbatim re-send of an earlier step (index+1), for labels and the
 	// "re-applied request changes nothing" oracle.
 	Dup int `json:"dup,omitempty"`
@@ -117,6 +123,8 @@ func (s Step) String() string {
 		return fmt.Sprintf("scan from=%d incl=%v limit=%d ts=%d", s.From, s.Incl, s.Limit, s.TS)
 	case OpCompact:
 		return fmt.Sprintf("compact level=%d mode=%d", s.Level, s.Mode)
+	case OpHotLimit:
+		return fmt.Sprintf("hotlimit n=%d", s.N)
 	}
 	return s.Op
 }
